@@ -45,6 +45,7 @@ type SchedResult struct {
 	RaceBuild     bool              `json:"race_build"`
 	Ties          int               `json:"maporder_ties"`
 	FreeformLines int               `json:"freeform_lines"`
+	SweepLines    int               `json:"sweep_lines"`
 	SharedChanged []string          `json:"shared_values_changed"`
 	SwitchPerK    uint32            `json:"switch_per_k"`
 	EvalPerK      uint32            `json:"eval_per_k"`
@@ -238,6 +239,7 @@ func schedChild(args []string) int {
 			results[i] = make([]string, len(progs[i]))
 			res.Programs = append(res.Programs, strings.Join(progs[i], " ;; "))
 		}
+		scopeBase := it.Global
 		evalOne := func(src string) (out string) {
 			// no harness state is shared between tasks here (a shared mutex would add
 			// happens-before edges and hide races from the detector)
@@ -253,7 +255,7 @@ func schedChild(args []string) int {
 			if err != nil {
 				return "PARSE " + err.Error()
 			}
-			env := object.NewEnclosedEnv(it.Global)
+			env := object.NewEnclosedEnv(scopeBase)
 			o := evaluator.Eval(prog, env)
 			if e, ok := o.(*object.PanErr); ok {
 				return "ERR " + e.Inspect()
@@ -291,7 +293,8 @@ func schedChild(args []string) int {
 		var sharedNames []string
 		var sharedBefore []string
 		builtinsFP := map[object.PanObject]string{}
-		if t.Chance(1, 2) {
+		wantSweep := t.Chance(1, 3)
+		if wantSweep || t.Chance(1, 2) {
 			sharedEnv = object.NewEnclosedEnv(it.Global)
 			for i := 0; i < 6; i++ {
 				src := c06Seeds[t.Intn(len(c06Seeds))]
@@ -310,10 +313,49 @@ func schedChild(args []string) int {
 				res.Programs = append(res.Programs, name+" := "+src)
 			}
 		}
+		// sweep runs: every task reads the shared values through EVERY property their prototype
+		// chains offer (plainly and with `private?: true`), all tasks the same list in a
+		// tape-chosen rotation: a property that looks read-only but writes to the value (or
+		// to any interpreter-wide table) then meets itself in another task
+		sweep := wantSweep && len(sharedNames) > 0
+		if sweep {
+			tabs := &c06Check{it: it}
+			tabs.initTables(it)
+			var lines []string
+			recvs := append([]string(nil), sharedNames...)
+			// two of the built-in prototypes (shared by every evaluation of the process) as receivers too
+			protos := []string{"Int", "Str", "Arr", "Obj", "Map", "Range", "Func", "Kernel", "Iterable", "Either", "Err", "BaseObj", "Float", "Nil"}
+			for n := 0; n < 2; n++ {
+				recvs = append(recvs, protos[t.Intn(len(protos))])
+			}
+			for _, name := range recvs {
+				v, ok := sharedEnv.Get(object.GetSymHash(name))
+				if !ok {
+					continue
+				}
+				for _, pn := range tabs.propsFor(v) {
+					lines = append(lines, fmt.Sprintf("%s.%s", name, pn), fmt.Sprintf("%s.%s(private?: true)", name, pn))
+				}
+			}
+			scopeBase = sharedEnv
+			// (bounded: under the race detector and the scheduler a read costs ~1 ms; the
+			// window of the list is the same for all tasks, only their rotation differs)
+			if len(lines) > 300 {
+				w := t.Intn(len(lines) - 300)
+				lines = lines[w : w+300]
+			}
+			for i := range progs {
+				rot := t.Intn(len(lines))
+				progs[i] = append(append([]string(nil), lines[rot:]...), lines[:rot]...)
+				results[i] = make([]string, len(progs[i]))
+				res.Programs[i] = fmt.Sprintf("<sweep of %d property reads over the shared values, rotation %d>", len(lines), rot)
+			}
+			res.SweepLines += len(lines) * k
+		}
 		histGen := make([]*c06Check, k)
 		histTape := make([]*tape.Tape, k)
 		for i := 0; i < k; i++ {
-			if t.Chance(1, 2) {
+			if !sweep && t.Chance(1, 2) {
 				freeform[i] = true
 				histGen[i] = &c06Check{it: it, evalHook: soloEval, sharedEnv: sharedEnv, sharedNames: sharedNames}
 				histTape[i] = tape.New(uint64(t.U32())<<20|uint64(*run), uint64(i))
